@@ -281,8 +281,27 @@ class Gen:
             return self.g_new(world)
         if r.random() < self.p_bad:
             return self.g_bad(world)
+        follow = getattr(self, 'last_derivation', None)
+        self.last_derivation = None
+        if follow is not None and r.random() < 0.25:
+            # derive-then-mutate: right after a derivation, change the source or the result in place
+            slot = r.choice(follow)
+            if world.obs[slot % len(world.obs)].kind == S:
+                k = r.choice(['apply', 'apply', 'remove', 'iadd', 'clear', 'pad', 'clip', 'fmatch', 'assign'])
+                op = getattr(self, 'g_' + k)(world)
+                if op['op'] == k:
+                    op['r'] = slot
+                    if 'ip' in op:
+                        op['ip'] = True
+                    if 'd' in op:
+                        op['d'] = slot
+                    return op
         k = r.choices(self.kinds, self.weights)[0]
         op = getattr(self, 'g_' + k)(world)
+        if op['op'] in ('slice', 'clip', 'split', 'splitlines', 'partition', 'conv', 'add', 'join', 'replace', 'strip',
+                        'rmfix', 'iter', 'case', 'pad', 'apply', 'remove') and not op.get('ip') and op.get('d') is not None \
+                and op.get('r') is not None:
+            self.last_derivation = (op['r'], op['d'])
         if op['op'] in ('apply', 'remove', 'pad', 'replace', 'split', 'find') and r.random() < 0.2:
             op['kw'] = r.choice([1, 2, 3])   # keyword / defaulted argument forms of the same call
         if op['op'] == 'pad' and r.random() < 0.15:
